@@ -110,6 +110,7 @@ class StructTrip(Harness):
         from engine import cryptomodel as cm
         it.world = cm.World()
         T = self.ty; sp = self.spec
+        it.stubs = dict(sp.get('stubs', {}))
         info = {'set': []}
         try:
             obj = Box_(it.call('<%s as std::default::Default>::default' % T, []))
@@ -129,7 +130,21 @@ class StructTrip(Harness):
                 self.apply(it, obj, f[0], self.arg(v))
             before = self.getters(it, obj)
             rec = xmlmodel.Recorder()
-            wargs = lambda: [Ref(Box_(1)) if a == '$rid' else a for a in sp.get('write_args', [])]
+            env = {}
+            def tok(a, empty=None):
+                if a == '$rid': return Ref(Box_(1))
+                if a == '$none': return NONE()
+                if a == '$empty': return empty
+                if a == '$true': return True
+                if a == '$spans': return sref('1:1')
+                if a == '$hmap':
+                    from engine import containers
+                    return Ref(Box_(containers.HMap()))
+                if isinstance(a, str) and a.startswith('$new:'):
+                    if a not in env: env[a] = Box_(it.call('<%s as std::default::Default>::default' % a[5:], []))
+                    return Ref(env[a])
+                return a
+            wargs = lambda: [tok(a) for a in sp.get('write_args', [])]
             it.call(T + '::' + sp.get('write', 'write_to'), [Ref(obj), Ref(Box_(rec))] + wargs())
             evs = rec.events
             info['events'] = len(evs)
@@ -137,13 +152,15 @@ class StructTrip(Harness):
             if evs:
                 first = evs[0]; empty = (first.variant if isinstance(first.variant, str) else xmlmodel.event_order()[first.variant]) == 'Empty'
                 rd = xmlmodel.XmlReader(evs[1:], trim=True)
-                extra = [empty if a == '$empty' else (NONE() if a == '$none' else a) for a in sp.get('read_args', [])]
+                extra = [tok(a, empty) for a in sp.get('read_args', [])]
                 it.call(T + '::set_attributes::<&[u8]>', [Ref(back), Ref(Box_(rd)), Ref(Box_(first.fields[0]))] + extra)
             after = self.getters(it, back)
             rec2 = xmlmodel.Recorder()
             it.call(T + '::' + sp.get('write', 'write_to'), [Ref(back), Ref(Box_(rec2))] + wargs())
         except Panic as e:
             self.fail(ctx, res, 'no-panic', str(e), info=info); return
+        finally:
+            it.stubs = {}
         for f, b, a in zip(sp['fields'], before, after):
             self.oblige(ctx, res, 'same-' + f[1], same(ctx, a, b), info=dict(info, field=f[1]))
         self.oblige(ctx, res, 'second-generation-xml-identical', events_equal(ctx, evs, rec2.events), info=dict(info, gen2_events=len(rec2.events)))
@@ -228,5 +245,13 @@ SPECS['sheet_view'] = {'name': 'sheet_view', 'prop': 'C06', 'type': 'structs::sh
     ('set_show_grid_lines', 'get_show_grid_lines', ('bool',)), ('set_tab_selected', 'get_tab_selected', ('bool',)), ('set_workbook_view_id', 'get_workbook_view_id', ('u32', 0, 3)),
     ('set_view', 'get_view', ('enum', 'SheetViewValues')), ('set_zoom_scale', 'get_zoom_scale', ('u32', 10, 400)), ('set_zoom_scale_normal', 'get_zoom_scale_normal', ('u32', 10, 400)),
     ('set_top_left_cell', 'get_top_left_cell', ('strchoice', ['B2', 'XFD1048576', 'A1']))]}
+SPECS['row'] = {'name': 'row', 'prop': 'C05', 'type': 'structs::row::Row', 'stubs': {'structs::stylesheet::Stylesheet::set_style': lambda it_, st, style: 0},
+    'write_args': ['$new:structs::stylesheet::Stylesheet', '$spans', '$true'],
+    'read_args': ['$new:structs::cells::Cells', '$new:structs::shared_string_table::SharedStringTable', '$new:structs::stylesheet::Stylesheet', '$hmap', '$empty'], 'fields': [
+    ('set_row_num', 'get_row_num', ('u32', 1, 1048576)), ('set_height', 'get_height', ('f64', [15.0, 12.75, 409.5])), ('set_descent', 'get_descent', ('f64', [0.25, 0.3])),
+    ('set_thick_bot', 'get_thick_bot', ('bool',)), ('set_custom_height', 'get_custom_height', ('bool',)), ('set_hidden', 'get_hidden', ('bool',))]}
+SPECS['defined_name'] = {'name': 'defined_name', 'prop': 'C06', 'type': 'structs::defined_name::DefinedName', 'setter_generics': {'set_name': '::<&str>', 'set_address': '::<&str>'}, 'fields': [
+    ('set_name', 'get_name', ('str', [97, 95, 46, 0xE9, 66])), ('set_address', 'get_address', ('strchoice', ['Sheet1!$A$1', "'My Sheet'!$A$1:$B$2", 'Sheet1!$A$1,Sheet1!$C$3', 'Sheet1!$1:$2'])),
+    ('set_local_sheet_id', 'get_local_sheet_id', ('u32', 0, 10)), ('set_hidden', 'get_hidden', ('bool',))]}
 def harnesses_for(prop, tier):
     return [StructTrip(tier, sp) for sp in SPECS.values() if sp['prop'] == prop]
